@@ -277,7 +277,7 @@ func seriesCase(rs []res, ntable, policy int, r *hx.Rand, tags []string) {
 		ident[i] = i
 	}
 	first, b := runSeries(rs, ident, ntable, policy)
-	det := deterministic(b, policy)
+	det := first == "!err" || deterministic(b, policy)
 	if det {
 		hx.Printf("obs %d det=1 dump=%s\n", cid, first)
 	} else {
